@@ -593,9 +593,9 @@ class C15(Check):
         "continuity at a reversal point is checked through the one-sided limit extrapolated from three probes "
         "1e-7 apart and only where those probes lie on one linear piece",
     ]
-    EXAMPLES = {"quick": 150, "thorough": 1500}
-    MIN_EVALS = {"quick": 1200, "thorough": 12000}
-    TIME_CAP = {"quick": 170, "thorough": 1100}
+    EXAMPLES = {"quick": 200, "thorough": 3000}
+    MIN_EVALS = {"quick": 600, "thorough": 8000}
+    TIME_CAP = {"quick": 150, "thorough": 1100}
     LEVEL_TEXT = ("Generated-deck search with an independent table model and metamorphic relations: every table row "
                   "and a 201-point saturation grid per curve are compared with a piecewise-linear model of the typed "
                   "numbers; family II decks and ENDSCALE decks restating the table's end-points must reproduce the "
@@ -932,9 +932,23 @@ class C15(Check):
             table = {}
             for (corner, s, trip), v in zip(pts[ci], ev):
                 table[(corner, s)] = (obs(v), trip)
-            info = {"cell": ci, "satnum": c["satnum"], "given": given, "threept": three,
+            info = {"cell": ci, "satnum": c["satnum"], "given": given, "threept": three, "family": case.get("family", 1),
                     "endpoints": {k: self.ep_text(k, v) for k, v in c["ep"].items()},
                     "table_endpoints": {k: self.ep_text(k, v) for k, v in own.items()}}
+
+            def flat(corner, q, own=own):
+                """three-point vertical scaling requested for a curve whose table value at the displacing critical
+                saturation equals the table maximum (signature of two known defects)"""
+                fwo = "KRORW" in given and own.get("KRORW") == own.get("KRO")
+                fgo = "KRORG" in given and own.get("KRORG") == own.get("KRO")
+                if q == "kro":
+                    return (fwo or fgo) if ph == "OWG" else (fwo if corner == "w" else fgo)
+                if q == "krw":
+                    return "KRWR" in given and own["KRWR"] == own["KRW"]
+                if q == "krg":
+                    return "KRGR" in given and own["KRGR"] == own["KRG"]
+                return False
+            ROUND = "eps-vert3pt-flat-table-rounding"
             # the manager's scaled oil-water info must carry the keyword values (observation of extractScaled)
             inf = rep["cells"][ci]["info"]
             for kw, name in (("SWL", "Swl"), ("SWCR", "Swcr"), ("SWU", "Swu"), ("SOWCR", "Sowcr"), ("SGCR", "Sgcr"),
@@ -952,11 +966,13 @@ class C15(Check):
                     scale = pcs[q] if q in pcs else 1.0
                     if not (abs(got[q] - exp) <= TOL_EPS * max(scale, abs(exp))):
                         return self.V("end-point mapping: " + label,
-                                      dict(info, corner=corner, S=s, state=trip, quantity=q, got=got[q], expected=exp))
+                                      dict(info, corner=corner, S=s, state=trip, quantity=q, got=got[q], expected=exp),
+                                      ROUND if flat(corner, q) else None)
                 else:
                     if not (got[q] > 0.0):
                         return self.V("end-point mapping: " + label,
-                                      dict(info, corner=corner, S=s, state=trip, quantity=q, got=got[q]))
+                                      dict(info, corner=corner, S=s, state=trip, quantity=q, got=got[q]),
+                                      ROUND if flat(corner, q) else None)
             # bounds and monotonicity of the scaled curves
             kmax = {"krw": c["ep"].get("KRW", 0) / Q, "krg": c["ep"].get("KRG", 0) / Q, "kro": c["ep"].get("KRO", 0) / Q}
             prev = {}
@@ -980,6 +996,8 @@ class C15(Check):
                             if corner == "g" and k == "krg" and "KRGR" in given and own["KRGR"] == own["KRG"] \
                                     and s > fe["SGU"]:
                                 key = "eps-vert3pt-flat-table-extrapolates"
+                        if key is None and flat(corner, k):
+                            key = ROUND
                         return self.V("scaled relperm outside [0, scaled maximum]",
                                       dict(info, corner=corner, S=s, quantity=k, got=got[k], max=kmax[k]), key)
                 p = prev.get(corner)
@@ -987,10 +1005,12 @@ class C15(Check):
                     k = "krw" if corner == "w" else "krg"
                     if got[k] < p[k] - 1e-12:
                         return self.V("scaled %s decreases with its own saturation" % k,
-                                      dict(info, corner=corner, S=s, got=got[k], previous=p[k]))
+                                      dict(info, corner=corner, S=s, got=got[k], previous=p[k]),
+                                      ROUND if flat(corner, k) else None)
                     if got["kro"] > p["kro"] + 1e-12:
                         return self.V("scaled kro increases while oil saturation decreases",
-                                      dict(info, corner=corner, S=s, got=got["kro"], previous=p["kro"]))
+                                      dict(info, corner=corner, S=s, got=got["kro"], previous=p["kro"]),
+                                      ROUND if flat(corner, "kro") else None)
                 prev[corner] = got
         return None
 
